@@ -117,6 +117,34 @@ def fld_cases(rnd, per_fn):
     return out
 
 
+def find_cases(rnd, n):
+    """search functions on longer operands over a two-letter alphabet (self-overlapping needles: partial matches that fail)"""
+    out = []
+    for fn, w in (("strstr_s", 1), ("strcasestr_s", 1), ("wcsstr_s", 4), ("strpbrk_s", 1), ("strspn_s", 1), ("strcspn_s", 1)):
+        for _ in range(n):
+            hl = rnd.randint(0, 9)
+            nl = rnd.randint(1, 4)
+            alpha = [97, 98] if rnd.random() < 0.8 else [97, 65, 98]
+            hay = [rnd.choice(alpha) for _ in range(hl)]
+            if rnd.random() < 0.5 and hl >= nl:
+                k = rnd.randint(0, hl - nl)
+                needle = hay[k:k + nl]                      # occurs: maybe behind a failed partial match
+            else:
+                needle = [rnd.choice(alpha) for _ in range(nl)]
+            dmax = rnd.choice([hl + 1, hl + 1, hl + 3, max(1, hl), max(1, hl - 2)])
+            slen = rnd.choice([nl + 1, nl + 1, nl + 2, nl, max(1, nl - 1)])
+            d = 2
+            a = blank(d - 1) + hay + [0]
+            while len(a) < d - 1 + dmax:
+                a.append(G(len(a)))
+            a += blank(2)
+            s = len(a) + 1
+            a += needle + [0] + blank(max(0, slen - nl - 1) + 1)
+            c = case(fn, w, d, dmax, s, slen, a)
+            out.append(c)
+    return out
+
+
 def password_cases(rnd, n):
     """strispassword_s needs strings of 6..31 characters: beyond the TLC arena, seeded here"""
     out = []
@@ -192,6 +220,8 @@ def cases(family, seed, tier):
     k = 60 if tier == "quick" else 600
     if family == "strcopy":
         return copy_cases(rnd, k) + cat_cases(rnd, k)
+    if family == "query2":
+        return find_cases(rnd, k * 5)
     if family == "query1":
         return password_cases(rnd, k * 10)
     if family == "strfld":
